@@ -6,11 +6,11 @@
 (*        over: Seq([prop, missing, items]), ordefault: Seq([prop, missing, v])]                                   *)
 EXTENDS SdkModels, Json, IOUtils
 Obs == JsonDeserialize(IOEnv.VERIF_OBS)
-VARIABLES i, paths
+\* (the record itself is the state, see SdkTrace)
+VARIABLES Rec, paths
 ModelOf(o) == IF o.pa = 0 THEN FixedModels[o.mi] ELSE ParamModel(o.pa, o.pb)
-Init == i \in 1..Len(Obs) /\ paths = AllNodePaths(Obs[i].x)
-Next == UNCHANGED <<i, paths>>
-Rec == Obs[i]
+Init == Rec \in ToSet(Obs) /\ paths = AllNodePaths(Rec.x)
+Next == UNCHANGED <<Rec, paths>>
 Nodes == Rec.nodes
 
 Inv_SdkGenerated == Rec.sdk /\ Rec.built
